@@ -5,7 +5,7 @@
    the publisher model is the signature-keyed filter with a cache that never forgets (the real cache is a
    bounded freecache: see DESIGN.md / evidence for what that leaves out). *)
 From QV Require Import Base.Util Base.HashSig History.HistModel History.HistSpec History.HistProofs Hyper.HyperModel
-  Balloon.Balloon Balloon.BalloonProofs Agents.Agents Agents.AgentsProofs Properties.Instance.
+  Balloon.Balloon Balloon.BalloonProofs Agents.Agents Agents.AgentsProofs Agents.PubConc Agents.PubConcProofs Properties.Instance.
 
 Section C19.
   Variables D E V : Type.
@@ -92,7 +92,22 @@ Section C19p.
     (forall g, In g (map snd (concat batches)) <-> In g (map snd (concat outs))) /\
     (forall x, In x (concat outs) -> In x (concat batches)) /\ Forall (fun o => o <> []) outs.
   Proof. exact (publisher_once Sn Sig Sig_eqb Sig_eqb_eq batches c' outs). Qed.
+
+  (* (6) the task manager runs every batch's task in its own goroutine.  With the lock of fix 36f634f around the
+         lookup-and-remember loop: for any number of tasks and EVERY schedule of their steps, no signature is forwarded by
+         two tasks, nor twice by one.  (Go's sync.Mutex is modelled as: only the owner steps.) *)
+  Theorem C19_publisher_once_concurrent batches sched :
+    let s := prun Sn Sig Sig_eqb true (pinit Sn Sig batches) sched in
+    (forall i, NoDup (map snd (t_out _ _ (p_tasks _ _ s i)))) /\
+    (forall i j g, i <> j -> fwd Sn Sig s i g -> fwd Sn Sig s j g -> False).
+  Proof. exact (locked_publisher_once Sn Sig Sig_eqb Sig_eqb_eq batches sched). Qed.
 End C19p.
+
+(* the pinned code had no lock: two tasks, one shared signed snapshot, four steps - both forward it *)
+Example C19_publisher_unlocked_refuted :
+  let s := prun N N N.eqb false (pinit N N [[(7, 42)]; [(7, 42)]]) [0; 1; 0; 1]%nat in
+  t_out _ _ (p_tasks _ _ s 0%nat) = [(7, 42)] /\ t_out _ _ (p_tasks _ _ s 1%nat) = [(7, 42)].
+Proof. vm_compute. split; reflexivity. Qed.
 
 Example C19_premises_hold :
   reach D4 E4 N H4 4 2 kbits4 vid st2 evs2 /\ NoDup (map kbits4 evs2) /\
@@ -109,3 +124,4 @@ Print Assumptions C19_monitor_alerts_iff.
 Print Assumptions C19_auditor_quiet_sound.
 Print Assumptions C19_monitor_quiet_sound.
 Print Assumptions C19_publisher_once.
+Print Assumptions C19_publisher_once_concurrent.
